@@ -253,7 +253,7 @@ def main(run, args):
         allc = [(alias.get(t, t), 1 if t in HASHMAP_TYPES else 0, b, expected_list(o), origin) for (t, b, origin), o in zip(cases, outs) if o["kind"] in ("ok", "err")]
         # the model is evaluated inside Coq: every valid value, every primitive case, and a
         # byte-budgeted sample of the malformed stream (short inputs first)
-        budget = 1_500_000 if run.tier == "quick" else 12_000_000
+        budget = 1_500_000 if run.tier == "quick" else 8_000_000
         cc = [c[:4] for c in allc if c[4] in ("valid", "prim", "random")]
         rest = sorted([c for c in allc if c[4] == "mutated"], key=lambda c: len(c[2]))
         used = sum(len(c[2]) for c in cc)
@@ -263,9 +263,18 @@ def main(run, args):
             used += len(c[2])
             cc.append(c[:4])
         cc.sort(key=lambda c: len(c[2]))
-        nsh = 16
-        shards = [cc[i::nsh] for i in range(nsh)]
-        with ThreadPoolExecutor(max_workers=16) as ex:
+        # bounded files: a coqc process needs about 0.5 MB per case, so the cases are cut into
+        # chunks of at most 400 cases / 150 kB and at most 10 coqc processes run at a time
+        shards, cur, cur_b = [], [], 0
+        for c in cc:
+            if cur and (len(cur) >= 400 or cur_b + len(c[2]) > 150_000):
+                shards.append(cur)
+                cur, cur_b = [], 0
+            cur.append(c)
+            cur_b += len(c[2])
+        if cur:
+            shards.append(cur)
+        with ThreadPoolExecutor(max_workers=10) as ex:
             results = list(ex.map(lambda x: coq_shard(*x), enumerate(shards)))
         for si, (nums, log) in enumerate(results):
             if nums is None:
